@@ -809,7 +809,7 @@ impl Prop for C20 {
                 tree.files.insert("g".into(), ws::TFile { data: B::new("x\n"), mode: 0o644 });
                 let series = format!("p.patch -p1{}\nq.patch\n", if case.reverse { " -R" } else { "" });
                 let q: &[u8] = b"--- a/g\n+++ b/g\n@@ -1 +1 @@\n-x\n+y\n";
-                let spec = ws::WsSpec { tree, patches: vec![("p.patch".into(), B(case.patch_text())), ("q.patch".into(), B::new(q))], series: B::new(series), applied: None, dirs: vec![] };
+                let spec = ws::WsSpec { tree, patches: vec![("p.patch".into(), B(case.patch_text())), ("q.patch".into(), B::new(q))], series: B::new(series), applied: None, dirs: vec![], symlinks: vec![] };
                 let root = cx.env.fresh_dir("c20-");
                 spec.materialise(&root);
                 let mut args = ws::base_args(threads);
